@@ -2,12 +2,19 @@
 
 (a) the exception classes of montepy/errors.py plus the runtime/library classes the error policy talks about, as an
     enumeration `Cls`, with the subclass relation taken from the LIVE classes (`issubclass`);
-(b) for every guarded region of the read path the classes named in its `except` clauses, in order, taken from the
-    AST of the source file (not from the running code);
-(c) for every function of the linking stage the classes of its explicit `raise` statements (AST), so that a new
-    `raise` inside a guarded loop re-opens `C13_handled_ok`.
-A structural change (a region that no longer exists, an except clause naming something that is not a class name)
-makes the translator fail: the check then stops with a machinery error instead of judging a stale table.
+(b) for every guarded region of the read path the classes the region takes, OBSERVED on the working tree: the callee
+    the region guards is replaced (inside this process only) by one that raises an instance of class K, a tiny
+    problem is read through the public entry point (`MCNP_Problem.parse_input`, both modes) and what comes out is
+    recorded (warning and go on / raised as which class).  The list written to the table is the set of most general
+    classes of the observed set; it is written only if the `except`-clause semantics over the live hierarchy
+    reproduce every single observation.  The AST reading of the `except` clauses is kept as a fall-back (whole
+    module, helpers included) for a region whose probe cannot be run; a region neither can read is written as the
+    empty list and named in `unknownFacts` (then `C13_tables_known` and `C13_mapping` fail: obligations of C13 only);
+(c) for every function of the linking stage the classes of its explicit `raise` statements (AST: inherently
+    syntactic; the function and the helpers of its module it calls, transitively), so that a new `raise` inside a
+    guarded loop re-opens `C13_handled_ok`;
+(d) the pairing step of Material.__init__, OBSERVED on material cards with 1..6 entries.
+The translator never raises on an unexpected shape: it writes "unknown" for that fact.
 """
 import ast
 import builtins
@@ -109,55 +116,412 @@ def _pick(tries, what, pred):
     return c[0]
 
 
-def regions():
-    """region name -> ordered list of class names in its except clauses"""
+class _Unknown(Exception):
+    pass
+
+
+def _modfuncs(tree):
+    """every function of the module (methods and nested functions included)"""
+    return [n for n in ast.walk(tree) if isinstance(n, (ast.FunctionDef, ast.AsyncFunctionDef))]
+
+
+def _alltries(tree):
+    return [n for n in ast.walk(tree) if isinstance(n, ast.Try)]
+
+
+def _norm_handlers(t):
+    """the classes a try statement TAKES, equivalent spellings identified: `except A: raise` before `except B: ...`
+    and `except B as e: if isinstance(e, A): raise e` both read [B] (the exclusion of A is the model's business:
+    Model.Errors.flushInput), duplicates removed"""
+    names = []
+    for h in t.handlers:
+        hs = ["BaseException"] if h.type is None else ([_name(e) for e in h.type.elts] if isinstance(h.type, ast.Tuple) else [_name(h.type)])
+        only_reraise = len(h.body) == 1 and isinstance(h.body[0], ast.Raise) and (h.body[0].exc is None or (isinstance(h.body[0].exc, ast.Name) and h.body[0].exc.id == h.name))
+        if only_reraise and h is not t.handlers[-1]:
+            continue
+        for n in hs:
+            if n not in names:
+                names.append(n)
+    return names
+
+
+def regions_ast():
+    """region name -> list of class names in its except clauses (None where the shape is not recognised).  Fall-back
+    and cross-check of `regions()`; searches the whole module, so a try statement moved into a helper is found."""
     out = {}
-    prob = _src("montepy/mcnp_problem.py")
-    pi = _tries(_func(prob, "MCNP_Problem.parse_input"))
-    construct = _pick(pi, "parseInputConstruct", lambda t: _contains_call(t, "obj_parser") and not _contains_call(t, "link_to_problem"))
-    inner = _pick(pi, "parseInputInner", lambda t: _contains_call(t, "obj_parser") and _contains_call(t, "link_to_problem") and not _contains_call(t, "read_input_syntax"))
-    outer = _pick(pi, "parseInputOuter", lambda t: _contains_call(t, "read_input_syntax"))
-    # clauses of the construction try: a bare `raise` keeps the class, a clause raising MalformedInputError maps it
-    keep, remap = [], []
-    for h in construct.handlers:
-        names = [_name(e) for e in h.type.elts] if isinstance(h.type, ast.Tuple) else [_name(h.type)]
-        bare = any(isinstance(n, ast.Raise) and n.exc is None for n in ast.walk(h))
-        mapped = any(
-            isinstance(n, ast.Raise) and n.exc is not None and isinstance(n.exc, ast.Call) and _name(n.exc.func) == "MalformedInputError"
-            for n in ast.walk(h)
-        )
-        if bare and not mapped:
-            keep += names
-        elif mapped and not bare:
-            if keep is None:
-                raise RuntimeError("c13_errors: parseInputConstruct: unexpected clause order")
-            remap += names
-        else:
-            raise RuntimeError("c13_errors: parseInputConstruct: a clause that neither re-raises nor maps to MalformedInputError")
-    if [n for h in construct.handlers for n in ([_name(e) for e in h.type.elts] if isinstance(h.type, ast.Tuple) else [_name(h.type)])] != keep + remap:
-        raise RuntimeError("c13_errors: parseInputConstruct: keep clauses must come before mapping clauses")
-    out["parseInputConstructKeep"] = keep
-    out["parseInputConstructMap"] = remap
-    out["parseInputInner"] = _handlers(inner)
-    out["parseInputOuter"] = _handlers(outer)
-    uip = _tries(_func(prob, "MCNP_Problem.__update_internal_pointers"))
-    out["uipLoadData"] = _handlers(_pick(uip, "uipLoadData", lambda t: _contains_call(t, "__load_data_inputs_to_object")))
-    out["uipSurfaceLoop"] = _handlers(_pick(uip, "uipSurfaceLoop", lambda t: _contains_call(t, "update_pointers") and any(isinstance(a, ast.Attribute) and a.attr == "surfaces" for n in ast.walk(ast.Module(body=t.body, type_ignores=[])) if isinstance(n, ast.Call) for a in n.args)))
-    out["uipDataLoop"] = _handlers(_pick(uip, "uipDataLoop", lambda t: _contains_call(t, "update_pointers") and not any(isinstance(a, ast.Attribute) and a.attr == "surfaces" for n in ast.walk(ast.Module(body=t.body, type_ignores=[])) if isinstance(n, ast.Call) for a in n.args)))
-    cells = _src("montepy/cells.py")
-    up = _tries(_func(cells, "Cells.update_pointers"))
-    out["cellsModifierOnce"] = _handlers(_pick(up, "cellsModifierOnce", lambda t: _contains_raise(t, "MalformedInputError")))
-    out["cellsModifierMerge"] = _handlers(_pick(up, "cellsModifierMerge", lambda t: _contains_call(t, "merge")))
-    out["cellsCellLoop"] = _handlers(_pick(up, "cellsCellLoop", lambda t: _contains_call(t, "update_pointers")))
-    sb = _tries(_func(cells, "Cells.__setup_blank_cell_modifiers"))
-    out["cellsBlankModifiers"] = _handlers(_pick(sb, "cellsBlankModifiers", lambda t: _contains_call(t, "push_to_cells")))
-    obj = _src("montepy/mcnp_object.py")
-    oi = _tries(_func(obj, "MCNP_Object.__init__"))
-    out["objectInit"] = _handlers(_pick(oi, "objectInit", lambda t: _contains_call(t, "parse") and not _handlers(t) == ["AttributeError"]))
-    rd = _src("montepy/input_parser/input_syntax_reader.py")
-    fi = _tries(_func(rd, "read_data.flush_input"))
-    out["flushInput"] = _handlers(_pick(fi, "flushInput", lambda t: _contains_call(t, "ReadInput")))
+
+    def one(key, fn):
+        try:
+            out[key] = fn()
+        except Exception:  # any unexpected shape: unknown, never a failure of the translator
+            out[key] = None
+
+    def pick(tries, pred):
+        c = []
+        for t in tries:
+            try:
+                if pred(t):
+                    c.append(t)
+            except Exception:
+                pass
+        # the same clause list found twice (a helper and its caller) is one fact
+        lists = []
+        for t in c:
+            h = _norm_handlers(t)
+            if h not in lists:
+                lists.append(h)
+        if len(lists) != 1:
+            raise _Unknown()
+        return c[0]
+
+    try:
+        prob = _alltries(_src("montepy/mcnp_problem.py"))
+    except Exception:
+        prob = []
+    try:
+        cells = _alltries(_src("montepy/cells.py"))
+    except Exception:
+        cells = []
+    try:
+        obj = _alltries(_src("montepy/mcnp_object.py"))
+    except Exception:
+        obj = []
+    try:
+        rd = _alltries(_src("montepy/input_parser/input_syntax_reader.py"))
+    except Exception:
+        rd = []
+
+    def direct_call(t, attr):
+        """the try body calls attr, not counting try statements nested in the body"""
+        return _contains_call(t, attr)
+
+    def construct():
+        cands = [t for t in prob if any(isinstance(n, ast.Raise) and n.exc is None for h in t.handlers for n in ast.walk(h))
+                 and any(isinstance(n, ast.Raise) and isinstance(n.exc, ast.Call) and _name(n.exc.func) == "MalformedInputError" for h in t.handlers for n in ast.walk(h))]
+        if len(cands) != 1:
+            raise _Unknown()
+        keep, remap = [], []
+        for h in cands[0].handlers:
+            names = [_name(e) for e in h.type.elts] if isinstance(h.type, ast.Tuple) else [_name(h.type)]
+            bare = any(isinstance(n, ast.Raise) and n.exc is None for n in ast.walk(h))
+            if bare:
+                if remap:
+                    raise _Unknown()
+                keep += names
+            else:
+                remap += names
+        return keep, remap
+
+    one("parseInputConstructKeep", lambda: construct()[0])
+    one("parseInputConstructMap", lambda: construct()[1])
+    one("parseInputInner", lambda: _norm_handlers(pick(prob, lambda t: _contains_call(t, "link_to_problem") and not _contains_call(t, "read_input_syntax") and not _contains_call(t, "push_to_cells"))))
+    one("parseInputOuter", lambda: _norm_handlers(pick(prob, lambda t: _contains_call(t, "read_input_syntax"))))
+    surf = lambda t: any(isinstance(a, ast.Attribute) and a.attr == "surfaces" for n in ast.walk(ast.Module(body=t.body, type_ignores=[])) if isinstance(n, ast.Call) for a in n.args)
+    one("uipLoadData", lambda: _norm_handlers(pick(prob, lambda t: _contains_call(t, "__load_data_inputs_to_object"))))
+    one("uipSurfaceLoop", lambda: _norm_handlers(pick(prob, lambda t: _contains_call(t, "update_pointers") and surf(t) and not _contains_call(t, "read_input_syntax"))))
+    one("uipDataLoop", lambda: _norm_handlers(pick(prob, lambda t: _contains_call(t, "update_pointers") and not surf(t) and not _contains_call(t, "read_input_syntax"))))
+    one("cellsModifierOnce", lambda: _norm_handlers(pick(cells, lambda t: _contains_raise(t, "MalformedInputError"))))
+    one("cellsModifierMerge", lambda: _norm_handlers(pick(cells, lambda t: _contains_call(t, "merge"))))
+    one("cellsCellLoop", lambda: _norm_handlers(pick(cells, lambda t: _contains_call(t, "update_pointers"))))
+    one("cellsBlankModifiers", lambda: _norm_handlers(pick(cells, lambda t: _contains_call(t, "push_to_cells"))))
+    one("objectInit", lambda: _norm_handlers(pick(obj, lambda t: _contains_call(t, "parse") and _norm_handlers(t) != ["AttributeError"])))
+    one("flushInput", lambda: _norm_handlers(pick(rd, lambda t: _contains_call(t, "ReadInput"))))
     return out
+
+
+# ---------------------------------------------------------------------------------------------- observation
+PROBE_TEXT = "probe\n1 1 -1.0 -1\n2 0 1\n\n1 so 1\n\nmode n p\nm1 1001.80c 1\nimp:n 1 0\nimp:p 1 0\nvol 1 1\n"
+PROBE_ONCE = "probe\n1 1 -1.0 -1\n2 0 1\n\n1 so 1\n\nmode n\nm1 1001.80c 1\nimp:n 1 0\nvol 1 1\nvol 2 2\n"
+NOT_PROBED = ("StopIteration",)  # PEP 479: turned into RuntimeError inside a generator by Python itself
+
+
+def _mk(name, live):
+    """an instance of the class, or None if this plug-in does not know how to build one"""
+    K = live[name]
+    try:
+        if name == "MalformedInputError":
+            return K(None, "probe")
+        if name == "ParsingError":
+            return K(None, "probe", [])
+        if name == "BrokenObjectLinkError":
+            return K("A", 1, "B", 2)
+        if name == "RedundantParameterSpecification":
+            return K("k", "v")
+        if name == "LexError":
+            return K("probe", "t", 0)
+        if name == "UnicodeDecodeError":
+            return K("utf-8", b"x", 0, 1, "probe")
+        e = K("probe")
+        if not hasattr(e, "message"):
+            try:
+                e.message = "probe"  # handle_error of the linking stage formats `e.message`
+            except Exception:
+                pass
+        return e
+    except Exception:
+        return None
+
+
+class _Patched:
+    """setattr on a class / module for the duration of a with block (this process only)"""
+
+    def __init__(self, owner, name, value):
+        self.owner, self.name, self.value = owner, name, value
+
+    def __enter__(self):
+        self.had = self.name in vars(self.owner)
+        self.old = vars(self.owner).get(self.name)
+        setattr(self.owner, self.name, self.value)
+
+    def __exit__(self, *a):
+        if self.had:
+            setattr(self.owner, self.name, self.old)
+        else:
+            delattr(self.owner, self.name)
+
+
+def _owner(cls, name):
+    """the class of the MRO that defines the method"""
+    for k in cls.__mro__:
+        if name in vars(k):
+            return k
+    return cls
+
+
+def _private(cls, suffix):
+    """name-mangled private method of cls by its written name, None if there is none"""
+    c = [n for n in vars(cls) if n.endswith(suffix) and n.startswith("_")]
+    return c[0] if len(c) == 1 else None
+
+
+def _read(path, check):
+    """parse_input through the public entry point -> (class raised or None, warning class names, problem)"""
+    import warnings
+
+    problem = montepy.MCNP_Problem(path)
+    with warnings.catch_warnings(record=True) as w:
+        warnings.simplefilter("always")
+        try:
+            problem.parse_input(check_input=check)
+            exc = None
+        except Exception as e:
+            exc = type(e)
+    return exc, [str(x.message).split(":")[0] for x in w], problem
+
+
+def observe(names, live):
+    """region -> list of handler classes (most general classes of the observed set), None (probe not possible: the
+    AST reading is used) or False (the probes ran and the observations are not those of an except clause: unknown, no
+    fall-back).  See the module text."""
+    import shutil
+    import tempfile
+
+    out = {}
+    d = tempfile.mkdtemp(prefix="c13obs_")
+    rev = {}
+    for n in names:
+        rev.setdefault(live[n], n)
+    probed = [n for n in names if n not in NOT_PROBED and _mk(n, live) is not None]
+
+    def sub(a, b):
+        return issubclass(live[a], live[b])
+
+    def gens(S):
+        return [n for n in names if n in S and not any(m != n and m in S and sub(n, m) and live[m] is not live[n] for m in S)]
+
+    def closed(G, n):
+        return any(sub(n, g) for g in G)
+
+    try:
+        path = os.path.join(d, "probe.imcnp")
+        with open(path, "w") as fh:
+            fh.write(PROBE_TEXT)
+        once = os.path.join(d, "once.imcnp")
+        with open(once, "w") as fh:
+            fh.write(PROBE_ONCE)
+        exc, warns, clean = _read(path, False)
+        if exc is not None or warns or len(clean.cells) != 2 or len(clean.materials) != 1:
+            return {}
+        n_data = len(clean.data_inputs)
+        cell_t, surf_t = type(list(clean.cells)[0]), type(list(clean.surfaces)[0])
+        mat_t = type(list(clean.materials)[0])
+        from montepy.data_inputs.mode import Mode
+        from montepy.data_inputs.importance import Importance
+        from montepy.data_inputs.volume import Volume
+        from montepy.input_parser.input_file import MCNP_InputFile
+        from montepy.input_parser.mcnp_input import Input, ReadInput
+        from montepy.input_parser.block_type import BlockType
+
+        def boom(name):
+            def f(*a, **k):
+                raise _mk(name, live)
+
+            return f
+
+        def standard(key, owner, meth, continued=None, file=path):
+            """a region of the shape `try: callee() except (...) as e: warn-or-raise`: handled = check mode returns with
+            a warning of the class (and, for a loop, goes on); validated: normal mode raises K itself, an unhandled K
+            comes out as K in check mode too"""
+            if owner is None or meth is None:
+                out[key] = None
+                return
+            S, ok = set(), True
+            for n in probed:
+                with _Patched(owner, meth, boom(n)):
+                    en, wn, pn = _read(file, False)
+                    ec, wc, pc = _read(file, True)
+                if en is not live[n]:
+                    ok = False  # normal mode does not hand the class through: not what Model.Errors.outcome says
+                if ec is None and n in wc and (continued is None or continued(pc)):
+                    S.add(n)
+                elif ec is None:
+                    S.discard(n)  # taken by a region further out (no continuation): not this region's
+                elif ec is not live[n]:
+                    ok = False
+            out[key] = gens(S) if ok else False
+
+        # --- parse_input: construction (keep / map): the constructor of the `mode` input raises K; normal mode shows
+        #     the class after the mapping (every layer further out hands a class through unchanged in normal mode)
+        cm, ok, G, Gk = {}, True, [], []
+        mode_init = Mode.__init__
+
+        def ctor(name):
+            def f(self, input=None, *a, **k):
+                if input is None:  # MCNP_Problem.__init__ builds a blank Mode
+                    return mode_init(self, input, *a, **k)
+                raise _mk(name, live)
+
+            return f
+
+        for n in probed:
+            with _Patched(Mode, "__init__", ctor(n)):
+                en, _, _ = _read(path, False)
+            cm[n] = rev.get(en)
+            if cm[n] is None:
+                ok = False
+        if ok:
+            mapped = {n for n in probed if cm[n] != n}
+            G = gens(mapped)
+            keep = {n for n in probed if cm[n] == n and closed(G, n)}
+            Gk = gens(keep)
+            for n in probed:
+                want = n if closed(Gk, n) else ("MalformedInputError" if closed(G, n) else n)
+                if cm[n] != want:
+                    ok = False
+        out["parseInputConstructKeep"] = Gk if ok else False
+        out["parseInputConstructMap"] = G if ok else False
+        # --- parse_input: per-input handler (link_to_problem of the `mode` input raises; goes on = the material after
+        #     it is read) and the reader's handler (opening the file raises; nothing is read)
+        standard("parseInputInner", Mode, "link_to_problem", continued=lambda p: len(p.materials) == 1)
+        standard("parseInputOuter", MCNP_InputFile, "open", continued=lambda p: len(p.cells) == 0)
+        # --- linking stage
+        standard("uipLoadData", type(clean), _private(type(clean), "__load_data_inputs_to_object"))
+        standard("uipSurfaceLoop", _owner(surf_t, "update_pointers"), "update_pointers")
+        standard("uipDataLoop", _owner(mat_t, "update_pointers"), "update_pointers")
+        # the only class that can arise in the `once` region is the MalformedInputError it raises itself: observed on
+        # a data block with two VOL inputs
+        en, _, _ = _read(once, False)
+        ec, wc, _ = _read(once, True)
+        out["cellsModifierOnce"] = ["MalformedInputError"] if (en is live["MalformedInputError"] and ec is None and "MalformedInputError" in wc) else False
+        standard("cellsModifierMerge", _owner(Importance, "merge"), "merge")
+        standard("cellsCellLoop", _owner(cell_t, "update_pointers"), "update_pointers")
+        standard("cellsBlankModifiers", _owner(Volume, "push_to_cells"), "push_to_cells")
+        # --- MCNP_Object.__init__: the token stream raises K inside `parser.parse`; the constructor is called directly
+        def tok(name):
+            def f(self, *a, **k):
+                raise _mk(name, live)
+                yield  # a generator, like Input.tokenize: raises at the first token
+
+            return f
+
+        om, ok, G = {}, True, []
+        for n in probed:
+            with _Patched(Input, "tokenize", tok(n)):
+                try:
+                    Mode(Input(["mode n"], BlockType.DATA))
+                    om[n] = None
+                except Exception as e:
+                    om[n] = rev.get(type(e))
+            if om[n] is None:
+                ok = False
+        if ok:
+            G = gens({n for n in probed if om[n] != n})
+            ok = all(om[n] == ("MalformedInputError" if closed(G, n) else n) for n in probed)
+        out["objectInit"] = G if ok else False
+        # --- flush_input: ReadInput(...) raises K for every input; taken = the input is yielded (the file reads as if
+        #     nothing happened); a ParsingError is re-raised (Model.Errors.flushInput), anything else comes out as K
+        fm, ok, G = {}, True, []
+        for n in probed:
+            with _Patched(ReadInput, "__init__", boom(n)):
+                en, _, pn = _read(path, False)
+            if en is None and len(pn.cells) == 2 and len(pn.data_inputs) == n_data:
+                fm[n] = "yield"
+            elif en is live[n]:
+                fm[n] = "raise"
+            else:
+                ok = False
+        if ok:
+            G = gens({n for n in probed if fm[n] == "yield"})
+            ok = all(fm[n] == ("yield" if closed(G, n) and not sub(n, "ParsingError") else "raise") for n in probed)
+        out["flushInput"] = G if ok else False
+    except Exception:
+        if os.environ.get('C13_EXTRACT_DEBUG'):
+            import traceback
+
+            traceback.print_exc()
+        # whatever was not observed stays unknown
+    finally:
+        shutil.rmtree(d, ignore_errors=True)
+    return out
+
+
+REGIONS = ["parseInputConstructKeep", "parseInputConstructMap", "parseInputInner", "parseInputOuter", "uipLoadData",
+           "uipSurfaceLoop", "uipDataLoop", "cellsModifierOnce", "cellsModifierMerge", "cellsCellLoop",
+           "cellsBlankModifiers", "objectInit", "flushInput"]
+
+
+def class_names():
+    """the enumeration Cls: classes of errors.py, the runtime classes of the policy, every class an except clause or a
+    raise statement of the read path names"""
+    own = [n for n, c in vars(E).items() if inspect.isclass(c) and c.__module__ == E.__name__ and issubclass(c, BaseException)]
+    names = list(own)
+    extra = []
+    for lst in list(regions_ast().values()) + list(raise_sites().values()):
+        extra += lst or []
+    for n in RUNTIME + ["LexError"] + extra:
+        if n not in names:
+            try:
+                _resolve(n)
+            except Exception:
+                continue
+            names.append(n)
+    return own, names
+
+
+def regions_with_source():
+    """region -> (class names, 'observed' | 'ast' | 'unknown')"""
+    own, names = class_names()
+    live = {n: _resolve(n) for n in names}
+    obs = observe(names, live)
+    syn = regions_ast()
+    out = {}
+    for r in REGIONS:
+        if obs.get(r) is False:
+            # the probes ran and what came out is not what an except clause of Model.Errors does (normal mode hands
+            # another class through, a class comes out changed ...): a behaviour the AST must not paper over
+            out[r] = ([], "unknown")
+        elif obs.get(r) is not None:
+            out[r] = (obs[r], "observed")
+        elif syn.get(r) is not None and all(n in names for n in syn[r]):
+            out[r] = (syn[r], "ast")
+        else:
+            out[r] = ([], "unknown")
+    return out
+
+
+def regions():
+    """region name -> list of class names the region takes (used by tools/props/c13.py too)"""
+    return {r: v[0] for r, v in regions_with_source().items()}
 
 
 # functions of the linking stage whose explicit raise statements are enumerated (region they run in is fixed by hand
@@ -184,26 +548,80 @@ def _raises(fn, nested=True):
     for n in ast.walk(fn):
         if isinstance(n, ast.Raise) and n.exc is not None:
             e = n.exc.func if isinstance(n.exc, ast.Call) else n.exc
-            nm = _name(e)
-            if nm in ("e", "err", "error"):
+            try:
+                nm = _name(e)
+            except RuntimeError:
+                continue
+            if nm in ("e", "err", "error", "exc", "ex"):
                 continue  # re-raise of a caught exception: class decided by the handler, modelled there
             if nm not in names:
                 names.append(nm)
     return names
 
 
+def _find(tree, qual):
+    """the function by dotted path; if it is not there, the only function of the module with that last name"""
+    try:
+        return _func(tree, qual)
+    except RuntimeError:
+        last = qual.split(".")[-1]
+        c = [f for f in _modfuncs(tree) if f.name == last]
+        return c[0] if len(c) == 1 else None
+
+
+def _with_helpers(tree, fn):
+    """fn and the functions of the same module it calls (by bare name, or as an attribute: self.helper(...),
+    self.__helper(...), Class.helper(...)), transitively.  `update_pointers`-like dispatch to other objects is not
+    followed: those are sites of their own."""
+    funcs = {}
+    for f in _modfuncs(tree):
+        funcs.setdefault(f.name, []).append(f)
+    seen, todo = [], [fn]
+    while todo:
+        f = todo.pop()
+        if any(f is g for g in seen):
+            continue
+        seen.append(f)
+        for n in ast.walk(f):
+            if isinstance(n, ast.Call):
+                c = n.func
+                nm = None
+                if isinstance(c, ast.Name):
+                    nm = c.id
+                elif isinstance(c, ast.Attribute) and isinstance(c.value, ast.Name) and (c.value.id in ("self", "cls") or c.value.id[:1].isupper()):
+                    nm = c.attr
+                if nm in funcs and len(funcs[nm]) == 1 and nm != fn.name and (nm.startswith("_") or isinstance(c, ast.Name)):
+                    todo.append(funcs[nm][0])
+    return seen
+
+
 def raise_sites():
+    """site -> class names of its raise statements (None: the function was not found)"""
     out = {}
     for key, spec in RAISE_SITES.items():
         if spec is None:
             continue
         rel, qual = spec
-        out[key] = _raises(_func(_src(rel), qual))
+        try:
+            tree = _src(rel)
+            fn = _find(tree, qual)
+            if fn is None:
+                out[key] = None
+                continue
+            names = []
+            for f in _with_helpers(tree, fn):
+                for nm in _raises(f):
+                    if nm not in names:
+                        names.append(nm)
+            out[key] = names
+        except Exception:
+            out[key] = None
     for key, meths in (
         ("cellModifierMerge", ("merge",)),
         ("cellModifierPush", ("push_to_cells", "_clear_data", "_check_redundant_definitions", "_check_particle_in_problem", "__setitem__")),
     ):
         names = []
+        found = False
         for rel, cls in [
             ("montepy/data_inputs/cell_modifier.py", "CellModifierInput"),
             ("montepy/data_inputs/importance.py", "Importance"),
@@ -212,48 +630,57 @@ def raise_sites():
             ("montepy/data_inputs/lattice_input.py", "LatticeInput"),
             ("montepy/data_inputs/fill.py", "Fill"),
         ]:
-            tree = _src(rel)
+            try:
+                tree = _src(rel)
+            except Exception:
+                continue
             for meth in meths:
                 try:
                     fn = _func(tree, f"{cls}.{meth}")
                 except RuntimeError:
                     continue
-                for nm in _raises(fn):
-                    if nm not in names:
-                        names.append(nm)
-        out[key] = names
+                found = True
+                for f in _with_helpers(tree, fn):
+                    for nm in _raises(f):
+                        if nm not in names:
+                            names.append(nm)
+        out[key] = names if found else None
     return out
 
 
 def material_pairing():
-    """How Material.__init__ pairs the flat entry list of a material (the ListNode branch: nuclides written without a
-    library suffix), read off the AST.  -> one of batchedUnpack (batches of two, the loop unpacks `a, b`: a leftover
-    entry raises ValueError), zipStrict (zip(..., strict=True): raises ValueError), zipTruncating (plain zip: a
-    leftover entry is DROPPED silently), unknown (an idiom this plug-in does not know: the obligation C13_pairing
-    stays open until somebody looks)."""
-    fn = _func(_src("montepy/data_inputs/material.py"), "Material.__init__")
-    branch = None
-    for n in ast.walk(fn):
-        if isinstance(n, ast.If) and isinstance(n.test, ast.Call) and _callname(n.test) == "isinstance" and len(n.test.args) == 2 and _name(n.test.args[1]) == "ListNode":
-            branch = n
-            break
-    if branch is None:
+    """How Material.__init__ pairs the flat entry list of a material (nuclides written without a library suffix),
+    OBSERVED: material cards with 1..6 entries are built.  -> batchedUnpack (strict pairing: every even list gives the
+    pairs in order, every odd list raises ValueError itself, not a subclass -- what batches of two unpacked into two
+    names, or zip(..., strict=True), do), zipTruncating (an odd list is built with the leftover entry DROPPED),
+    unknown (anything else: the obligation C13_pairing stays open until somebody looks)."""
+    try:
+        from montepy.data_inputs.material import Material
+        from montepy.input_parser.mcnp_input import Input
+        from montepy.input_parser.block_type import BlockType
+
+        zaids = [1001, 8016, 6012]
+        fracs = ["0.5", "0.25", "0.125"]
+        res = []
+        for n in range(1, 7):
+            ent = []
+            for i in range(n):
+                ent.append(str(zaids[i // 2]) if i % 2 == 0 else fracs[i // 2])
+            try:
+                m = Material(Input(["m1 " + " ".join(ent)], BlockType.DATA))
+                got = [(iso.ZAID, comp.fraction) for iso, comp in m.material_components.items()]
+                good = got == [(str(zaids[i]), float(fracs[i])) for i in range(n // 2)]
+                res.append("pairs" if good else "other")
+            except Exception as e:
+                res.append("ValueError" if type(e) is ValueError else "other")
+        odd, even = res[0::2], res[1::2]
+        if all(x == "pairs" for x in even) and all(x == "ValueError" for x in odd):
+            return "batchedUnpack"
+        if all(x == "pairs" for x in res):
+            return "zipTruncating"
         return "unknown"
-    body = ast.Module(body=branch.body, type_ignores=[])
-    calls = [c for c in ast.walk(body) if isinstance(c, ast.Call)]
-    names = [_callname(c) for c in calls]
-    # the consumer: `for a, b in iterator:` unpacks every batch into exactly two names
-    unpacks = any(
-        isinstance(n, ast.For) and isinstance(n.target, ast.Tuple) and len(n.target.elts) == 2 and isinstance(n.iter, ast.Name) and n.iter.id == "iterator"
-        for n in ast.walk(fn)
-    )
-    if "zip" in names:
-        z = [c for c in calls if _callname(c) == "zip"][0]
-        strict = any(k.arg == "strict" and isinstance(k.value, ast.Constant) and k.value.value is True for k in z.keywords)
-        return "zipStrict" if strict else "zipTruncating"
-    if "batched" in names or ("islice" in names and any(_callname(c) == "islice" and len(c.args) == 2 and isinstance(c.args[1], ast.Constant) and c.args[1].value == 2 for c in calls)):
-        return "batchedUnpack" if unpacks else "unknown"
-    return "unknown"
+    except Exception:
+        return "unknown"
 
 
 def probe_data_loop():
@@ -310,17 +737,21 @@ def _resolve(name):
 
 
 def generate(write):
-    own = [n for n, c in vars(E).items() if inspect.isclass(c) and c.__module__ == E.__name__ and issubclass(c, BaseException)]
-    regs = regions()
-    sites = raise_sites()
-    names = list(own)
-    for n in RUNTIME + ["LexError"]:
-        if n not in names:
-            names.append(n)
-    for lst in list(regs.values()) + list(sites.values()):
-        for n in lst:
-            if n not in names:
-                names.append(n)
+    own, names = class_names()
+    rws = regions_with_source()
+    regs = {r: v[0] for r, v in rws.items()}
+    sites_raw = raise_sites()
+    unknown = ["region " + r for r, v in rws.items() if v[1] == "unknown"]
+    sites = {}
+    for k, lst in sites_raw.items():
+        if lst is None or any(n not in names for n in lst):
+            unknown.append("site " + k)
+            sites[k] = []
+        else:
+            sites[k] = sorted(lst, key=names.index)  # the order of the raise statements in the file is no fact
+    pairing = material_pairing()
+    if pairing == "unknown":
+        unknown.append("materialPairing")
     live = {n: _resolve(n) for n in names}
     body = "namespace MontePyVerif.Gen.Errors\n\n"
     body += "/-- exception classes: those defined in montepy/errors.py first, then runtime/library classes -/\n"
@@ -338,19 +769,21 @@ def generate(write):
     body += "/-- guarded regions of the read path -/\n"
     body += "inductive Region\n" + "".join(f"  | {r}\n" for r in regs) + "  deriving DecidableEq, Repr\n\n"
     body += "def Region.all : List Region := [" + ", ".join("." + r for r in regs) + "]\n\n"
-    body += "/-- classes named in the `except` clauses of the region, in source order (from the AST) -/\n"
+    body += "/-- the classes the region takes (Python's `except` semantics: a class is taken iff it is a subclass of a listed\n    one).  `observed`: the most general classes of the set observed by raising every class of `Cls` inside the region\n    on the working tree (tools/extractors/c13_errors.py: observe); `ast`: the except clauses as written (probe not\n    possible); `unknown`: neither (listed in `unknownFacts`) -/\n"
     body += "def handlers : Region → List Cls\n"
     for r, lst in regs.items():
-        body += f"  | .{r} => [" + ", ".join("." + n for n in lst) + "]\n"
+        body += f"  | .{r} => [" + ", ".join("." + n for n in lst) + f"]  -- {rws[r][1]}\n"
+    body += "\n/-- facts the translator could neither observe nor read (must be empty: `C13_tables_known`) -/\n"
+    body += "def unknownFacts : List String := [" + ", ".join('"' + u + '"' for u in unknown) + "]\n"
     body += "\n/-- functions whose explicit `raise` statements are enumerated (from the AST) -/\n"
     body += "inductive Site\n" + "".join(f"  | {s}\n" for s in sites) + "  deriving DecidableEq, Repr\n\n"
     body += "def Site.all : List Site := [" + ", ".join("." + s for s in sites) + "]\n\n"
     body += "def raises : Site → List Cls\n"
     for s, lst in sites.items():
         body += f"  | .{s} => [" + ", ".join("." + n for n in lst) + "]\n"
-    body += "\n/-- how Material.__init__ pairs the flat (nuclide, fraction) list of a material written without library\n    suffixes (from the AST of the ListNode branch) -/\n"
+    body += "\n/-- how Material.__init__ pairs the flat (nuclide, fraction) list of a material written without library\n    suffixes, OBSERVED on cards with 1..6 entries (batchedUnpack: strict, a leftover entry raises ValueError;\n    zipTruncating: a leftover entry is dropped; zipStrict is no longer told apart from batchedUnpack) -/\n"
     body += "inductive Pairing\n  | batchedUnpack\n  | zipStrict\n  | zipTruncating\n  | unknown\n  deriving DecidableEq, Repr\n\n"
-    body += f"def materialPairing : Pairing := .{material_pairing()}\n"
+    body += f"def materialPairing : Pairing := .{pairing}\n"
     body += "\n/-- behaviour probe of the data-input loop of __update_internal_pointers: data blocks as (kind, number) with kind\n    0 = M, 1 = MT, 2 = other, and the number of MalformedInputError warnings the linking stage gave in check mode -/\n"
     body += "def probeDataLoop : List (List (Nat × Nat) × Nat) := [\n" + ",\n".join(
         "  ([" + ", ".join(f"({a}, {b})" for a, b in cs) + f"], {n})" for cs, n in probe_data_loop()
